@@ -394,6 +394,9 @@ func (e *Encoder) applyContract(fr *frame, ct *Contract, args []*SVal, ci ssa.Ca
 	env2.callSite = true
 	var posts []*Term
 	for _, cl := range ct.Ensures {
+		if cl.Slow && !thoroughTier {
+			continue // not verified in this tier, so not assumed either
+		}
 		t, ok := func() (t *Term, ok bool) {
 			defer func() {
 				if r := recover(); r != nil {
